@@ -157,7 +157,20 @@ func (g *sheetgen) selector(nested bool) []piece {
 			}
 			ps = append(ps, piece{css.RightBracketToken, "]"})
 		case 7:
-			ps = append(ps, piece{css.IdentToken, ident(t)}, piece{css.ColonToken, ":"}, piece{css.FunctionToken, rapid.SampledFrom([]string{"not(", "nth-child(", "is("}).Draw(t, "pfunc")}, piece{css.IdentToken, ident(t)}, piece{css.RightParenthesisToken, ")"})
+			ps = append(ps, piece{css.IdentToken, ident(t)}, piece{css.ColonToken, ":"}, piece{css.FunctionToken, rapid.SampledFrom([]string{"not(", "nth-child(", "is("}).Draw(t, "pfunc")})
+			sp := piece{css.WhitespaceToken, " "}
+			switch rapid.IntRange(0, 6).Draw(t, "pfuncarg") {
+			case 0:
+				// An+B with an explicitly signed B: the sign belongs to the number token, it is not the + combinator
+				ps = append(ps, piece{css.DimensionToken, rapid.SampledFrom([]string{"2n", "-2n", "3N", "+4n"}).Draw(t, "an")}, sp, piece{css.NumberToken, rapid.SampledFrom([]string{"+1", "-1", "+3"}).Draw(t, "b")})
+			case 1:
+				ps = append(ps, piece{css.NumberToken, rapid.SampledFrom([]string{"+3", "-2", "5"}).Draw(t, "b")}, sp, piece{css.IdentToken, "of"}, sp, piece{css.IdentToken, ident(t)})
+			case 2:
+				ps = append(ps, piece{css.PercentageToken, "+50%"}, sp, piece{css.DimensionToken, "+2px"})
+			default:
+				ps = append(ps, piece{css.IdentToken, ident(t)})
+			}
+			ps = append(ps, piece{css.RightParenthesisToken, ")"})
 		}
 	}
 	if nested {
@@ -249,11 +262,17 @@ func (g *sheetgen) value() []piece {
 			fn := rapid.SampledFrom([]string{"rgb(", "calc(", "var(", "translate("}).Draw(t, "fn")
 			ps = append(ps, piece{css.FunctionToken, fn}, piece{css.NumberToken, "1"})
 			for k := rapid.IntRange(0, 2).Draw(t, "fargs"); k > 0; k-- {
-				sep := rapid.SampledFrom([]piece{{css.CommaToken, ","}, {css.DelimToken, "+"}, {css.DelimToken, "/"}, {css.DelimToken, "*"}}).Draw(t, "fsep")
+				// a semicolon or colon inside a function or bracket does not end the declaration
+				sep := rapid.SampledFrom([]piece{{css.CommaToken, ","}, {css.DelimToken, "+"}, {css.DelimToken, "/"}, {css.DelimToken, "*"}, {css.SemicolonToken, ";"}, {css.ColonToken, ":"}}).Draw(t, "fsep")
 				ps = append(ps, sep, piece{css.DimensionToken, "2px"})
 			}
-			if rapid.IntRange(0, 3).Draw(t, "nestedparen") == 0 {
+			switch rapid.IntRange(0, 5).Draw(t, "nestedparen") {
+			case 0:
 				ps = append(ps, piece{css.DelimToken, "*"}, piece{css.LeftParenthesisToken, "("}, piece{css.NumberToken, "3"}, piece{css.RightParenthesisToken, ")"})
+			case 1:
+				ps = append(ps, piece{css.DelimToken, "*"}, piece{css.LeftParenthesisToken, "("}, piece{css.NumberToken, "3"}, piece{css.SemicolonToken, ";"}, piece{css.IdentToken, ident(t)}, piece{css.RightParenthesisToken, ")"})
+			case 2:
+				ps = append(ps, piece{css.LeftBracketToken, "["}, piece{css.IdentToken, ident(t)}, piece{css.SemicolonToken, ";"}, piece{css.IdentToken, ident(t)}, piece{css.RightBracketToken, "]"})
 			}
 			ps = append(ps, piece{css.RightParenthesisToken, ")"})
 		case 9:
@@ -573,6 +592,8 @@ func checkWhitespace(t fataler, src string, u unit, wsAt []bool, extraTrailing b
 			mayNot = (hasLeft && single(left, ",>+~")) || single(c, ",>+~") || inAttr || !hasLeft
 			must = hasLeft && level == 0 && !inAttr && c.wsBefore && (left.tt == css.IdentToken || left.tt == css.HashToken || left.tt == css.RightBracketToken || left.tt == css.RightParenthesisToken || left.text == "*") &&
 				(c.tt == css.IdentToken || c.tt == css.HashToken || c.text == "." || c.text == "*" || c.tt == css.LeftBracketToken || c.tt == css.ColonToken)
+			// at any nesting level: two word tokens (idents, numbers with or without sign, dimensions, percentages) would merge
+			must = must || (hasLeft && !inAttr && c.wsBefore && wordLike(left) && wordLike(c))
 		case "prelude":
 			mayNot = (hasLeft && (single(left, ",:") || left.tt == css.LeftParenthesisToken)) || single(c, ",:") || c.tt == css.RightParenthesisToken || (!hasLeft && (c.tt == css.LeftParenthesisToken || c.tt == css.LeftBracketToken))
 			must = hasLeft && level == 0 && c.wsBefore && wordLike(left) && wordLike(c)
